@@ -54,6 +54,8 @@ def run(chk: Check) -> None:
     run_set_pop_guarded(chk, ix)
     run_blocker_rollback(chk, ix)
     run_parser_prevents(chk, ix)
+    run_registry_lookups_guarded(chk, ix)
+    run_instance_asserts_after_subtype(chk, ix)
 
     r1 = chk.rule("R20.1", "every loop that re-queues deferred work has a per-iteration counter compared with a constant bound that exits the loop; type-checker deferral is limited by pass_num < last_pass", floor=7)
     n_loops = 0
@@ -612,3 +614,110 @@ def run_parser_prevents(chk: Check, ix) -> None:
             r10.ok(key, f.loc(reports[0]))
         else:
             r10.violation(key, f.loc(builds[0]), "the SequencePattern is built without counting its StarredPattern items: `case [*a, *b]:` reaches the checker's assertion 'Parser should prevent multiple starred patterns'")
+
+
+def run_registry_lookups_guarded(chk: Check, ix) -> None:
+    """R20.11: a name that comes from configuration is not used as an unchecked key of the error-code registry."""
+    from ..cfg import branch_conditions
+    r = chk.rule("R20.11", "errorcodes.error_codes maps the names users write (`--disable-error-code`, `disable_error_code =` in any config section, `# mypy: disable-error-code=`) to ErrorCode objects. Outside errorcodes.py every subscript `error_codes[<name>]` with a non-constant key is under a membership test of that key (`if name in error_codes`, a comprehension filter) or is replaced by `.get`: an unknown name is a configuration error to report, not a KeyError (INTERNAL ERROR)", floor=3)
+    n = 0
+    for mn in ("mypy.options", "mypy.config_parser", "mypy.main", "mypy.errors", "mypy.build"):
+        m = ix.module(mn)
+        imported = {a.asname or a.name for s in m.tree.body if isinstance(s, ast.ImportFrom) and s.module == "mypy.errorcodes" for a in s.names if a.name == "error_codes"}
+        if not imported:
+            continue
+        par = m.parents()
+        for f in list(m.functions.values()) + [mm for c in m.classes.values() for mm in c.methods.values()]:
+            for s in ast.walk(f.node):
+                if not (isinstance(s, ast.Subscript) and isinstance(s.value, ast.Name) and s.value.id in imported and isinstance(s.ctx, ast.Load) and not isinstance(s.slice, ast.Constant)):
+                    continue
+                n += 1
+                k = norm(s.slice)
+                key = f"{f.qualname}: `{norm(s)}` is under a membership test"
+                guarded = False
+                # comprehension filter
+                p = par.get(s)
+                while p is not None and p is not f.node:
+                    if isinstance(p, (ast.SetComp, ast.ListComp, ast.GeneratorExp, ast.DictComp)):
+                        for g in p.generators:
+                            for cond in g.ifs:
+                                if isinstance(cond, ast.Compare) and isinstance(cond.ops[0], ast.In) and norm(cond.left) == k and norm(cond.comparators[0]) in imported:
+                                    guarded = True
+                    p = par.get(p)
+                st = s
+                while not isinstance(st, ast.stmt):
+                    st = par[st]
+                pos, neg = branch_conditions(par, f.node, st, early_exits=True)
+                for t in pos:
+                    for c in ast.walk(t):
+                        if isinstance(c, ast.Compare) and isinstance(c.ops[0], ast.In) and norm(c.left) == k and norm(c.comparators[0]) in imported:
+                            guarded = True
+                if guarded:
+                    r.ok(key, f.loc(s))
+                else:
+                    r.violation(key, f.loc(s), f"`{norm(s)}` raises KeyError for a name that is not a registered error code; the name comes from a config section or an inline comment that nobody validated (`[mypy-a] disable_error_code = bogus`: INTERNAL ERROR)")
+    if n < 3:
+        raise AnalysisError(f"only {n} subscripts of error_codes found")
+
+
+def run_instance_asserts_after_subtype(chk: Check, ix) -> None:
+    """R20.12: `is_subtype(t, <nominal type>)` does not make t an Instance."""
+    from ..cfg import branch_conditions
+    r = chk.rule("R20.12", "in the checker modules an `assert isinstance(X, Instance)` that is reached under a test `is_subtype(Y, ...)` (Y is X, or X was obtained from Y by get_proper_type / a plain assignment) is only sound if the other kinds of type that pass a subtype test against a nominal type have been dealt with before: the function returns earlier for TypeVarType (its bound is a subtype), UnionType (all items are) and AnyType; otherwise a type variable bounded by a mapping, a union of mappings or P.kwargs reaches the assertion (INTERNAL ERROR; the daemon dies)", floor=1)
+    need = ("TypeVarType", "UnionType", "AnyType")
+    n = 0
+    for mn in sorted(ix.modules):
+        if not (mn.startswith("mypy.check") or mn in ("mypy.typeops", "mypy.meet", "mypy.join", "mypy.binder", "mypy.plugins.default")):
+            continue
+        m = ix.modules[mn]
+        par = m.parents()
+        for f in list(m.functions.values()) + [mm for c in m.classes.values() for mm in c.methods.values()]:
+            for a in ast.walk(f.node):
+                if not (isinstance(a, ast.Assert) and isinstance(a.test, ast.Call) and norm(a.test.func) == "isinstance" and len(a.test.args) == 2 and isinstance(a.test.args[0], ast.Name) and norm(a.test.args[1]) == "Instance"):
+                    continue
+                x = a.test.args[0].id
+                aliases = {x}
+                changed = True
+                while changed:
+                    changed = False
+                    for s in ast.walk(f.node):
+                        if isinstance(s, ast.Assign) and len(s.targets) == 1 and isinstance(s.targets[0], ast.Name) and s.targets[0].id in aliases:
+                            v = s.value
+                            src = None
+                            if isinstance(v, ast.Name):
+                                src = v.id
+                            elif isinstance(v, ast.Call) and call_name(v) == "get_proper_type" and v.args and isinstance(v.args[0], ast.Name):
+                                src = v.args[0].id
+                            if src and src not in aliases:
+                                aliases.add(src)
+                                changed = True
+                pos, neg = branch_conditions(par, f.node, a, early_exits=True)
+                subs = [t for t in pos for c in ast.walk(t) if isinstance(c, ast.Call) and call_name(c) == "is_subtype" and c.args and isinstance(c.args[0], ast.Name) and c.args[0].id in aliases]
+                if not subs:
+                    continue
+                n += 1
+                handled = set()
+                for t in list(neg) + list(pos):
+                    for c in ast.walk(t):
+                        if isinstance(c, ast.Call) and norm(c.func) == "isinstance" and len(c.args) == 2 and isinstance(c.args[0], ast.Name) and c.args[0].id in aliases:
+                            for k in need:
+                                if k in norm(c.args[1]):
+                                    handled.add(k)
+                # only exclusions count: isinstance tests in `neg` (early exits / else arms) or negated in pos
+                excl = set()
+                for t in neg:
+                    for c in ast.walk(t):
+                        if isinstance(c, ast.Call) and norm(c.func) == "isinstance" and len(c.args) == 2 and isinstance(c.args[0], ast.Name) and c.args[0].id in aliases:
+                            excl |= {k for k in need if k in norm(c.args[1])}
+                for t in pos:
+                    for u in ast.walk(t):
+                        if isinstance(u, ast.UnaryOp) and isinstance(u.op, ast.Not) and isinstance(u.operand, ast.Call) and norm(u.operand.func) == "isinstance" and isinstance(u.operand.args[0], ast.Name) and u.operand.args[0].id in aliases:
+                            excl |= {k for k in need if k in norm(u.operand.args[1])}
+                key = f"{f.qualname}: `assert isinstance({x}, Instance)` under is_subtype(...) comes after the TypeVar / union / Any cases"
+                missing = [k for k in need if k not in excl]
+                if not missing:
+                    r.ok(key, f.loc(a))
+                else:
+                    r.violation(key, f.loc(a), f"the assertion is reached whenever `{norm(subs[0])[:70]}` holds, and nothing before it excludes {missing}: `case {{'k': v, **rest}}` on a subject of type `T` (bound Mapping[str, int]), `dict[str, int] | Mapping[str, int]` or `P.kwargs` ends in an AssertionError")
+    if n < 1:
+        raise AnalysisError("no `assert isinstance(X, Instance)` under an is_subtype test found in the checker modules (construct_sequence_child had one)")
